@@ -135,6 +135,7 @@ type Fam struct {
 	height  int64
 	now     int64 // unix ns of the current block
 	inBlock bool
+	committedParams string // the pos parameters as of the last commit
 	committed map[int64][2][]byte // height -> two records of the pos store as committed at that height (C14 monitor)
 	// Tendermint stand-in
 	tm       map[string]int64   // current validator set (addr hex -> power), as Tendermint would hold it for the next heights
@@ -257,7 +258,7 @@ func (f *Fam) doInit(w []string) string {
 		f.rep = &replica{app: NewApp(rdb, rpc, pr), db: rdb, rpc: rpc, pruning: pr}
 	}
 	f.dead, f.height, f.inBlock = false, 0, false
-	f.committed = nil
+	f.committed, f.committedParams = nil, ""
 	f.minChanged, f.windowChanged = false, false
 	f.win = nil
 	f.tm, f.tmHist, f.pending = map[string]int64{}, nil, nil
@@ -585,6 +586,20 @@ func (f *Fam) txBytes(t txSpec) ([]byte, sdk.Msg) {
 			sig = ms.Marshal()
 		} else {
 			sig[3] ^= 0x40
+		}
+	case "siglong": // the valid signature with a byte appended (for a multisignature: appended to its first component)
+		if k := Keys[t.signer]; k.Sub != nil {
+			ms := crypto.MultiSignature{}
+			for i, c := range k.Sub {
+				cs := c.Sign(signBytes)
+				if i == 0 {
+					cs = append(cs, 0x00)
+				}
+				ms.Sigs = append(ms.Sigs, cs)
+			}
+			sig = ms.Marshal()
+		} else {
+			sig = append(sig, byte(t.ent))
 		}
 	case "msdup": // a multisignature in which the first component's signature stands in every position
 		if k := Keys[t.signer]; k.Sub != nil {
